@@ -10,6 +10,12 @@ connects to this process, which connects on to the doer and relays the stream fr
 
   $MITM_PLAN = json {"dir": 0|1, "index": i, "op": ..., ...}     (dir 0: boss -> doer)
      none | dup | drop | flip (bit) | swap | replay_later (gap) | reflect | inject (hex) | truncate (keep)
+     cross (wait): only with two ssh sessions in one run ($MITM_SESSION_DIR: source and destination both
+            remote).  Every session publishes the frames it relays in the session directory; session
+            plan["session"] delivers frame `index` of direction `dir` of the OTHER session's link in place of
+            its own frame `index` (the same position in the same direction of another link of the same run).
+            If the other link does not get that far within `wait` seconds the own frame goes through untouched
+            ("not_applied").
   $MITM_DOER_CMD_LOG = file the doer's RJRSSYNC_VERIF_CMD_LOG is pointed at (the boss process gets none)
   $MITM_LOG  = file; one json object per line: {"key": hex} | {"dir", "index", "hex"} (frames as seen
                from the sender) | {"applied": ...} | {"closed": reason}
@@ -43,8 +49,9 @@ def read_exact(sock, n):
 
 
 class Proxy:
-    def __init__(self, doer_port, plan):
+    def __init__(self, doer_port, plan, session=None, sdir=None):
         self.doer_port, self.plan = doer_port, plan or {'op': 'none'}
+        self.session, self.sdir = session, sdir
         self.lsock = socket.socket(socket.AF_INET, socket.SOCK_STREAM)
         self.lsock.setsockopt(socket.SOL_SOCKET, socket.SO_REUSEADDR, 1)
         self.lsock.bind(('0.0.0.0', 0))
@@ -94,6 +101,37 @@ class Proxy:
             except OSError:
                 return False
 
+    def frame_file(self, k, d, i):
+        return os.path.join(self.sdir, 'frame.%d.%d.%d' % (k, d, i))
+
+    def publish(self, d, i, f):
+        """Make frame i of direction d of this link available to the other session of the run."""
+        if self.sdir is None or i >= 64:
+            return
+        try:
+            tmp = self.frame_file(self.session, d, i) + '.tmp'
+            with open(tmp, 'wb') as o:
+                o.write(f)
+            os.rename(tmp, self.frame_file(self.session, d, i))
+        except OSError:
+            pass
+
+    def foreign(self, d, i, wait):
+        """Frame i of direction d of the other link of this run (two sessions: 0 and 1), or None."""
+        if self.sdir is None:
+            return None
+        path = self.frame_file(1 - self.session, d, i)
+        t = time.time()
+        while True:
+            try:
+                with open(path, 'rb') as o:
+                    return o.read()
+            except OSError:
+                pass
+            if time.time() - t > wait:
+                return None
+            time.sleep(0.01)
+
     def relay(self, d, src, dst):
         p = self.plan
         mine = p.get('op', 'none') != 'none' and p.get('dir') == d
@@ -120,6 +158,7 @@ class Proxy:
                 break
             f = h + body
             log({'dir': d, 'index': i, 'hex': f.hex()})
+            self.publish(d, i, f)
             self.last[d] = f
             out = [f]
             if mine and i == p['index']:
@@ -145,6 +184,16 @@ class Proxy:
                         op = 'swap'          # (skips the 'applied' record below)
                     else:
                         out = [o, f] if p.get('keep', True) else [o]
+                elif op == 'cross':
+                    o = self.foreign(d, i, float(p.get('wait', 1.5)))
+                    if o is None:
+                        log({'not_applied': p}); self.applied.set()
+                        mine = False
+                        op = 'swap'          # (skips the 'applied' record below)
+                    else:
+                        out = [o]
+                        if o == f:
+                            log({'identical': {'dir': d, 'index': i}})
                 elif op == 'inject':
                     out = [bytes.fromhex(p['hex']), f] if p.get('keep', True) else [bytes.fromhex(p['hex'])]
                 elif op == 'truncate':
@@ -183,6 +232,7 @@ def ssh_main(argv):
     # several ssh sessions of one run (source and destination both remote): number them in launch order;
     # session k logs to $MITM_LOG.k / $MITM_DOER_CMD_LOG.k and only session plan["session"] is manipulated
     sdir = os.environ.get('MITM_SESSION_DIR')
+    k = None
     if sdir:
         k = 0
         while True:
@@ -227,7 +277,7 @@ def ssh_main(argv):
                 port = int(line[len(MARK):].strip())
                 with plock:
                     if 'p' not in proxy_box:
-                        proxy_box['p'] = Proxy(port, plan)
+                        proxy_box['p'] = Proxy(port, plan, session=k, sdir=sdir)
                 line = MARK + str(proxy_box['p'].port).encode() + b'\n'
             try:
                 os.write(dst_fd, line)
